@@ -367,6 +367,39 @@ fn generated_models() -> Vec<(String, String)> {
   for (k, x) in recursive_type_models().into_iter().enumerate() {
     out.push((format!("generated/recursive-item-definitions-{}", k), x));
   }
+  for (label, x) in nesting_towers() {
+    out.push((format!("generated/nesting-tower-{}", label), x));
+  }
+  out
+}
+
+/// Boxed expressions nested 10 .. 100000 levels deep (contexts in contexts, functions in functions, invocations in bindings,
+/// lists in lists): a usable model or an error, not an overflow of the native stack.
+fn nesting_towers() -> Vec<(String, String)> {
+  let mut out = vec![];
+  let head = "<?xml version=\"1.0\" encoding=\"UTF-8\"?>\n<definitions namespace=\"https://verif/deep\" name=\"deep\" id=\"m\" xmlns=\"https://www.omg.org/spec/DMN/20191111/MODEL/\">\n<decision name=\"D\" id=\"d\"><variable name=\"D\"/>";
+  let tail = "</decision></definitions>";
+  let kinds: Vec<(&str, &str, &str)> = vec![
+    ("contexts", "<context><contextEntry><variable name=\"a\"/>", "</contextEntry></context>"),
+    ("functions", "<functionDefinition><formalParameter name=\"p\"/>", "</functionDefinition>"),
+    ("invocations", "<invocation><literalExpression><text>f</text></literalExpression><binding><parameter name=\"p\"/>", "</binding></invocation>"),
+    ("result-entries", "<context><contextEntry>", "</contextEntry></context>"),
+  ];
+  for (kind, open, close) in kinds {
+    for depth in [10usize, 100, 200, 1000, 5000, 20000, 100000] {
+      let mut s = String::with_capacity(head.len() + depth * (open.len() + close.len()) + 100);
+      s.push_str(head);
+      for _ in 0..depth {
+        s.push_str(open);
+      }
+      s.push_str("<literalExpression><text>1</text></literalExpression>");
+      for _ in 0..depth {
+        s.push_str(close);
+      }
+      s.push_str(tail);
+      out.push((format!("{}-{}", kind, depth), s));
+    }
+  }
   out
 }
 
@@ -456,7 +489,7 @@ fn corpus(family: &str, tier: &str) -> Corpus {
   match family {
     "base" | "inputs" => {
       for (l, t) in shipped_models().into_iter().chain(generated_models()) {
-        if family == "inputs" && skip.contains(&l) {
+        if family == "inputs" && (skip.contains(&l) || l.contains("nesting-tower")) {
           continue;
         }
         models.push((l, t, vec![]));
@@ -470,13 +503,14 @@ fn corpus(family: &str, tier: &str) -> Corpus {
         shipped.truncate(75);
         shipped.sort();
       }
-      for (l, t) in shipped.into_iter().chain(generated_models()) {
+      // (the nesting towers are loaded and invoked as they are; their mutants would only repeat them a million times)
+      for (l, t) in shipped.into_iter().chain(generated_models().into_iter().filter(|m| !m.0.contains("nesting-tower"))) {
         let f = if skip.contains(&l) { vec![] } else { faults_of(&t) };
         models.push((l, t, f));
       }
     }
     "pairs" => {
-      let gens = generated_models();
+      let gens: Vec<(String, String)> = generated_models().into_iter().filter(|m| !m.0.contains("nesting-tower")).collect();
       let take = if thorough { gens.len() } else { 2 };
       let mut all: Vec<(String, String)> = gens.into_iter().take(take).collect();
       if thorough {
@@ -499,7 +533,7 @@ fn corpus(family: &str, tier: &str) -> Corpus {
       all.retain(|m| !skip.contains(&m.0));
       all.sort_by_key(|m| m.1.len());
       all.truncate(if thorough { 48 } else { 3 });
-      let gens = generated_models();
+      let gens: Vec<(String, String)> = generated_models().into_iter().filter(|m| !m.0.contains("nesting-tower")).collect();
       let take = if thorough { gens.len() } else { 1 };
       all.extend(gens.into_iter().take(take));
       for (l, t) in all {
